@@ -745,6 +745,9 @@ class Unit:
         gen.lines.append('{ unimplemented!() }')
 
     def emit_fn_text(self, gen, spec, hdr, body, loop_marks, canary_clause, register=True):
+        # termination is never claimed (partial correctness): a loop without a contract must not be an error
+        if not any('exec_allows_no_decreases_clause' in a for a in spec.attrs) and not any('exec_allows_no_decreases_clause' in (spec.header or '') for _ in [0]):
+            gen.lines.append('#[verifier::exec_allows_no_decreases_clause]')
         for a in spec.attrs:
             gen.lines.append(a)
         for ln in hdr.rstrip().split('\n'):
